@@ -201,6 +201,62 @@ def work_read_hist(lst):
     return len(lst), fails
 
 
+# ---------------------------------------------------------------- (e) number-literal table histories
+SPECIALS = ["-0.0", "0.0", "+inf.0", "-inf.0", "1/3", "-1/3", "1e21", "123456789012345678901234567890", "#xFF", "#e1.5", "#i1/4", "1.", ".5", "-.5e1"]
+
+
+def numtable_histories(tier):
+    """one engine per history: a special literal, then literals that are new to the process (each history uses numbers nobody else uses), then the
+    special one again - through read, through a quoted datum and through an expression; every element must come back as itself"""
+    out = []
+    k = 0
+    for sp in SPECIALS:
+        for how in ("read", "quote", "expr"):
+            for n_fresh in (1, 2, 3):
+                k += 1
+                fresh = ["%d.%d25" % (86000 + 7 * k + j, j) for j in range(n_fresh)] + (["%d/%d" % (9001 + 2 * k, 9002 + 2 * k)] if n_fresh == 3 else [])
+                out.append((sp, how, fresh))
+    return out
+
+
+def work_numtable(lst):
+    fails = []
+    for sp, how, fresh in lst:
+        def one(x):
+            return "(read (open-input-string %s))" % json.dumps(x) if how == "read" else ("(quote %s)" % x if how == "quote" else x)
+        def many(xs):
+            if how == "read":
+                return "(read (open-input-string %s))" % json.dumps("(" + " ".join(xs) + ")")
+            return "(quote (%s))" % " ".join(xs) if how == "quote" else "(list %s)" % " ".join(xs)
+        steps = [one(sp)] + [one(f) for f in fresh] + [one(sp), many([sp] + fresh + [sp]), many(fresh + [sp, sp])]
+        alone = common.run_cases([{"id": 0, "steps": [one(sp)] + [one(f) for f in fresh]}], batch=1, timeout_ms=20000)[0]
+        r = common.run_cases([{"id": 0, "steps": steps}], batch=1, timeout_ms=20000)[0]
+        if r["exit"] != "normal" or alone["exit"] != "normal" or len(r["steps"]) != len(steps):
+            fails.append((sp, how, fresh, "crash", ""))
+            continue
+        # reference = each literal read in an engine of its own order-independently: the first occurrence of each in `alone`
+        val = {}
+        ok = True
+        for x, st in zip([sp] + fresh, alone["steps"]):
+            if st["s"] != "ok":
+                ok = False
+            else:
+                val[x] = st["v"][-1]
+        if not ok:
+            continue  # the literal form itself is not readable this way (covered by the literal reference)
+        want_again = val[sp]
+        got_again = r["steps"][1 + len(fresh)]
+        if got_again["s"] != "ok" or got_again["v"][-1] != want_again:
+            fails.append((sp, how, fresh, "changed", "%s read again gives %s, first %s" % (sp, (got_again.get("v") or ["error"])[-1], want_again)))
+            continue
+        for seq, st in (([sp] + fresh + [sp], r["steps"][-2]), (fresh + [sp, sp], r["steps"][-1])):
+            want = "(lst " + " ".join(val[x] for x in seq) + ")"
+            if st["s"] != "ok" or st["v"][-1] != want:
+                fails.append((sp, how, fresh, "list", "(%s) gives %s, want %s" % (" ".join(seq), (st.get("v") or ["error"])[-1][:120], want[:120])))
+                break
+    return len(lst), fails
+
+
 # ---------------------------------------------------------------- (d) literal reference (escapes)
 BAR_PIECES = [("a", "a"), ("λ", "λ"), (" ", " "), ("\\|", "|"), ("\\\\", "\\"), ("\\x41;", "A"), ("\\n", "\n"), ("(", "("),
               ("#", "#"), ("😀", "😀"), (";", ";"), ("\\t", "\t")]
@@ -464,6 +520,17 @@ def main(argv=None):
             break
         lkept.append(e)
         rep.violation("literal %s denotes %s, read as %s" % (e, w, got), {"expr": e, "want": w, "got": got}, {"kind": "literal", "expr": e, "want": w})
+    # (e) histories through the number-literal table
+    nh = numtable_histories(a.tier)
+    nres = common.pmap(work_numtable, common.chunks(nh, 8))
+    n_numt = sum(r[0] for r in nres)
+    nseen = set()
+    for sp, how, fresh, cls, detail in sorted([f for r in nres for f in r[1]], key=lambda f: (f[0], f[1], len(f[2]))):
+        if (sp, how, cls) in nseen:
+            continue
+        nseen.add((sp, how, cls))
+        rep.violation("number literal %s (%s) after literals that are new to the process => %s" % (sp, how, cls), {"special": sp, "how": how, "fresh": fresh, "detail": detail},
+                      {"kind": "numtable", "special": sp, "how": how, "fresh": fresh})
     # (c) programs
     progs = ZOO + small_programs(a.tier)
     pres = common.pmap(work_roundtrip, common.chunks(progs, 500))
@@ -471,7 +538,7 @@ def main(argv=None):
     n_parsed = sum(r["parsed"] for r in pres)
     for m, cls, f in shrink_all([f for r in pres for f in r["fails"]], _shrink_prog, lambda f: f["s"]):
         rep.violation("print/parse %s => %s" % (m, cls), dict(f, minimal=m), {"kind": "roundtrip", "s": m})
-    cov = {"evaluations": n_parse + n_read + n_dat + n_prog + n_hist + n_lit, "literals": n_lit, "read_history_pairs": n_hist,
+    cov = {"evaluations": n_parse + n_read + n_dat + n_prog + n_hist + n_lit + n_numt, "number_table_histories": n_numt, "literals": n_lit, "read_history_pairs": n_hist,
            "distinct_nontrivial": n_ok + n_dat + n_parsed,
            "rule": "(a) every string of length <= %d over a %d-character alphabet and every token sequence of length <= %d (joined with and "
                    "without spaces) from a %d-token menu through Parser::parse (no panic, every AST/error span inside the text on char "
